@@ -98,6 +98,32 @@ def cases(tier, seed):
             yield {"family": "matrix", "M": _structured(n, kind), "all_restarts": False, "default": True, "seed": seed}
     for n in range(1, 6 if tier == "quick" else 7):
         yield {"family": "helpers", "N": n}
+    # E3: every ORDERED PAIR (thorough: also triples for N=3) of answers of the random source, i.e. two restarts in one call
+    for m in _sym(3, VALS):
+        yield {"family": "answers", "M": m, "depth": 2 if tier == "quick" else 3, "seed": seed}
+    for k, m in enumerate(_sym(4, [0.0, 1.0])):
+        if tier == "thorough" or k % 8 == 1:
+            yield {"family": "answers", "M": m, "depth": 2, "seed": seed}
+    # N=5 is the smallest size at which a restart can beat the identity start without a single accepted step (star-like graphs): every first
+    # answer x the rotations and the reversal as second answer
+    if tier == "thorough":
+        for m in _sym(5, [0.0, 1.0]):
+            yield {"family": "answers", "M": m, "depth": 2, "second": "rotations", "seed": seed}
+    else:
+        # quick: the hub graphs among them (every inner hub position - with the hub at an end the original bandwidth is already the largest
+        # possible, nothing can exceed it - and no or one extra edge between leaves)
+        for hub in (1, 2, 3):
+            leaves = [i for i in range(5) if i != hub]
+            for extra in [None] + list(itertools.combinations(leaves, 2)):
+                m = [[0.0] * 5 for _ in range(5)]
+                for i in leaves:
+                    m[i][hub] = m[hub][i] = 1.0
+                if extra:
+                    m[extra[0]][extra[1]] = m[extra[1]][extra[0]] = 1.0
+                yield {"family": "answers", "M": m, "depth": 2, "second": "rotations", "seed": seed}
+    # the helpers called again with the SAME permutation tensor object after the caller changed it in place (all ordered pairs of permutations)
+    for n in (2, 3, 4):
+        yield {"family": "helpers_history", "N": n}
 
 
 def _bw(m):
@@ -115,6 +141,10 @@ class ScriptedRandperm:
         p = self.script[self.calls % len(self.script)]
         self.calls += 1
         assert len(p) == n
+        out = k.get("out")
+        if out is not None:  # torch.randperm(n, out=buffer) fills and returns the caller's buffer: the seam must keep that aliasing
+            out.copy_(torch.tensor(p, dtype=out.dtype))
+            return out
         return torch.tensor(p, dtype=torch.int64)
 
 
@@ -180,6 +210,51 @@ def run_case(case):
             if any(b != labels for b in back) or P.permute_tensor(ve, inv).tolist() != vec.tolist() or not torch.equal(P.permute_tensor(ma, inv), mat):
                 return result(False, sig="helpers|inverse-does-not-undo", msg=f"p={list(p)}", outcome="viol")
         return result(True, outcome=["helpers", n, cnt], states=cnt, transitions=8 * cnt)
+
+    if case["family"] == "helpers_history":
+        from emu_mps.optimatrix import permutations as P
+
+        n = case["N"]
+        labels = [chr(ord("a") + k) for k in range(n)]
+        cnt = 0
+        perms = list(itertools.permutations(range(n)))
+        for p0, p1 in itertools.product(perms, repeat=2):
+            pt = torch.tensor(p0, dtype=torch.int64)
+            first = (P.permute_list(labels, pt), P.permute_tuple(tuple(labels), pt), P.permute_string("".join(labels), pt), P.permute_tensor(torch.arange(n), pt).tolist(), P.inv_permutation(pt).tolist())
+            pt.copy_(torch.tensor(p1, dtype=torch.int64))
+            second = (P.permute_list(labels, pt), P.permute_tuple(tuple(labels), pt), P.permute_string("".join(labels), pt), P.permute_tensor(torch.arange(n), pt).tolist(), P.inv_permutation(pt).tolist())
+            cnt += 2
+            for q, got in ((p0, first), (p1, second)):
+                exp = [labels[k] for k in q]
+                inv = [list(q).index(k) for k in range(n)]
+                if got[0] != exp or list(got[1]) != exp or got[2] != "".join(exp) or got[3] != list(q) or got[4] != inv:
+                    return result(
+                        False,
+                        sig="helpers|same-tensor-changed-in-place",
+                        msg=f"permutation tensor first {list(p0)}, then changed in place to {list(p1)}: with {list(q)} got list {got[0]} tuple {got[1]} string {got[2]} tensor {got[3]} inverse {got[4]}, expected {exp}",
+                        outcome="viol",
+                    )
+        return result(True, outcome=["helpers_history", n, cnt], states=cnt, transitions=5 * cnt, nontrivial=True)
+
+    if case["family"] == "answers":
+        M = case["M"]
+        n = len(M)
+        cnt = 0
+        perms = list(itertools.permutations(range(n)))
+        try:
+            scripts = itertools.product(perms, repeat=case["depth"])
+            if case.get("second") == "rotations":
+                rots = [tuple((i + r) % n for i in range(n)) for r in range(n)] + [tuple(range(n))[::-1]]
+                scripts = itertools.product(perms, rots)
+            for script in scripts:
+                out = _call(M, case["depth"], [list(q) for q in script])
+                cnt += 1
+                err = _verify(M, out, f"restarts from {[list(q) for q in script]}")
+                if err:
+                    return result(False, sig="answers|" + err.split(":")[1][:30].strip(), msg=f"{err}; M={M}", outcome="viol", states=cnt, transitions=cnt)
+        except (AssertionError, NotImplementedError, ValueError, IndexError, RuntimeError) as e:
+            return result(False, sig=f"raises|{type(e).__name__}", msg=f"minimize_bandwidth raised {type(e).__name__}: {e}; M={M}", outcome="raise")
+        return result(True, outcome=["answers", n, cnt], states=cnt, transitions=cnt, nontrivial=any(M[i][j] != 0 for i in range(n) for j in range(n) if i != j))
 
     if case["family"] == "block5":
         vals5 = [0.0, 1.0, 3.0]
